@@ -83,7 +83,7 @@ func (w *World) inlineCandidates() map[*ssa.Function][]*ssa.Call {
 		for _, b := range fn.Blocks {
 			for _, in := range b.Instrs {
 				switch in.(type) {
-				case *ssa.Defer, *ssa.RunDefers, *ssa.Go:
+				case *ssa.Defer, *ssa.RunDefers:
 					ok = false
 				}
 			}
@@ -330,7 +330,7 @@ func (w *World) FGFlat(fn *ssa.Function) *FG {
 		for _, b := range h.Blocks {
 			for _, in := range b.Instrs {
 				switch in.(type) {
-				case *ssa.Defer, *ssa.RunDefers, *ssa.Go:
+				case *ssa.Defer, *ssa.RunDefers:
 					return false
 				}
 			}
